@@ -5,7 +5,7 @@
    Strings are lists of code points; all theorems hold for ALL strings and integers. *)
 From Coq Require Import List ZArith Bool Sorted.
 From YV Require Import Common.Corr Model.Strings Model.Regex.
-From YV Require Import Lemmas.StringsSlice Lemmas.StringsFind Lemmas.StringsSplit Lemmas.StringsTrim Lemmas.RegexPublish.
+From YV Require Import Lemmas.StringsSlice Lemmas.StringsFind Lemmas.StringsSplit Lemmas.StringsTrim Lemmas.StringsOrder Lemmas.RegexPublish.
 Import ListNotations.
 Open Scope Z_scope.
 
@@ -155,6 +155,30 @@ Theorem C19_characters : forall f,
   (forall c, In c (characters f) <-> In c (characters_string f)) /\ StronglySorted Z.lt (characters f).
 Proof. exact characters_spec. Qed.
 
+(* ---- < <= > >= and toUpper/toLower (ASCII) ------------------------------------------------------------ *)
+(* the comparison operators are one strict total order by code point (and its reflexive closure):
+   a proper prefix is smaller, otherwise the first differing code point decides *)
+Theorem C19_compare : forall a b c,
+  str_ltb a a = false /\ (str_ltb a b = true \/ a = b \/ str_ltb b a = true) /\
+  (str_ltb a b = true -> str_ltb b c = true -> str_ltb a c = true) /\
+  (c <> [] -> str_ltb a (a ++ c) = true) /\
+  str_cmp OpGt a b = str_cmp OpLt b a /\ str_cmp OpGe a b = str_cmp OpLe b a /\
+  str_cmp OpLe a b = negb (str_cmp OpLt b a) /\
+  (str_cmp OpLe a b = true <-> str_cmp OpLt a b = true \/ a = b).
+Proof.
+  exact (fun a b c => conj (str_ltb_irrefl a) (conj (str_ltb_trichotomy a b) (conj (str_ltb_trans a b c)
+          (conj (str_ltb_prefix a c) (str_cmp_spec a b))))).
+Qed.
+
+Theorem C19_compare_first_diff : forall p x y a b, x < y -> str_ltb (p ++ x :: a) (p ++ y :: b) = true.
+Proof. exact str_ltb_first_diff. Qed.
+
+Theorem C19_case_ascii : forall s,
+  length (ascii_upper s) = length s /\ length (ascii_lower s) = length s /\
+  ascii_upper (ascii_upper s) = ascii_upper s /\ ascii_lower (ascii_lower s) = ascii_lower s /\
+  ascii_upper (ascii_lower s) = ascii_upper s /\ ascii_lower (ascii_upper s) = ascii_lower s.
+Proof. exact case_map_spec. Qed.
+
 (* ---- _publish_match ------------------------------------------------------------------------------------ *)
 (* after _publish_match m: $1 is the whole match, $(i+2) is group i+1, $name is the record of the
    group of that name; nothing else is published *)
@@ -224,3 +248,4 @@ Print Assumptions C19_starts_ends.
 Print Assumptions C19_replace_count.
 Print Assumptions C19_characters.
 Print Assumptions C19_publish.
+Print Assumptions C19_compare.
